@@ -11,3 +11,6 @@ open Neutrino.Store
 #print axioms C07_index_layout
 #print axioms C07_index_layout_needs_disjoint
 #print axioms C07_index_source_shape
+#print axioms C07_ancestors
+#print axioms C07_locator
+#print axioms C07_reads_source_shape
